@@ -118,6 +118,57 @@ async fn call(handler: &str, file: &str, app: &Arc<AppShareData>) -> Result<(u16
                 outcome(crate::console::v2::mcp_server_api::update_mcp_server(req.clone(), data, web::Json(p)).await, &req).await
             }
         }
+        ("remove_config", true) => {
+            // composed key: the handler checks the tenant field, the key travels as dataId U+0002 group U+0002 tenant and is split again on apply.
+            // An administrator publishes a configuration in 'forbidden'; the restricted user removes "verif-d / G<U+0002>forbidden" in its own namespace 'allowed'.
+            use crate::config::core::{ConfigCmd, ConfigKey, ConfigResult};
+            use crate::console::model::config_model::ConfigParams;
+            use crate::raft::cluster::model::SetConfigReq;
+            let key = ConfigKey::new("verif-d", "G", "forbidden");
+            app.config_route.set_config(SetConfigReq::new(key.clone(), Arc::new("secret-of-forbidden".to_owned()))).await.map_err(|e| format!("MODEL: publish: {}", e))?;
+            let exists = |app: Arc<AppShareData>, key: ConfigKey| async move { matches!(app.config_addr.send(ConfigCmd::GET(key)).await, Ok(Ok(ConfigResult::Data { .. }))) };
+            if !exists(app.clone(), key.clone()).await {
+                return Err("MODEL: the configuration published into the forbidden namespace is not stored".to_string());
+            }
+            let p = ConfigParams {
+                data_id: Arc::new("verif-d".to_owned()),
+                group: Some(Arc::new("G\u{2}forbidden".to_owned())),
+                tenant: Some("allowed".to_owned()),
+                ..Default::default()
+            };
+            let o = outcome(crate::console::v2::config_api::remove_config(req.clone(), data, web::Json(p)).await, &req).await;
+            tokio::time::sleep(Duration::from_millis(300)).await;
+            if exists(app.clone(), key).await {
+                (403, format!("NO_NAMESPACE_PERMISSION (the configuration of namespace 'forbidden' is untouched; the handler answered {} {})", o.0, &o.1[..o.1.len().min(80)]))
+            } else {
+                (200, "the configuration verif-d / G of namespace 'forbidden' is gone after remove_config(tenant 'allowed', group 'G<U+0002>forbidden')".to_string())
+            }
+        }
+        ("get_config", _) if file.contains("openapi") => {
+            // the v1 console route /rnacos/api/console/cs/configs points to this OpenAPI handler function; it takes no request, so no session can be consulted.
+            // A configuration of the forbidden namespace is published first (as an administrator would), then read through the handler.
+            use crate::config::core::ConfigKey;
+            use crate::openapi::config::api::ConfigWebParams;
+            use crate::raft::cluster::model::SetConfigReq;
+            let key = ConfigKey::new("verif-d", "verif-g", "forbidden");
+            app.config_route.set_config(SetConfigReq::new(key, Arc::new("secret-of-forbidden".to_owned()))).await.map_err(|e| format!("MODEL: publish: {}", e))?;
+            let q = ConfigWebParams {
+                data_id: Some("verif-d".to_owned()),
+                group: Some("verif-g".to_owned()),
+                tenant: Some("forbidden".to_owned()),
+                content: None,
+                desc: None,
+                r#type: None,
+                search: None,
+                page_no: None,
+                page_size: None,
+            };
+            let o = outcome(crate::openapi::config::api::get_config(web::Query(q), data).await, &req).await;
+            if !o.1.contains("secret-of-forbidden") && !refused(&o) {
+                return Err(format!("MODEL: the configuration published into the forbidden namespace is not served back: {} {}", o.0, &o.1[..o.1.len().min(120)]));
+            }
+            o
+        }
         _ => return Err(format!("MODEL: no native call for handler {} ({})", handler, file)),
     })
 }
